@@ -109,6 +109,10 @@ func c03(p *Prog, r *Report) {
 	sort.Slice(fns, func(i, j int) bool { return fns[i].RelString(nil) < fns[j].RelString(nil) })
 	r.Count("functions_in_scope", len(fns))
 
+	const R9 = "C03.nil-results-only-with-errors"
+	r.Rule(R9, "a function of the scope that returns a pointer with a verdict returns nil only on failure returns when a caller dereferences the pointer behind the verdict check alone", 3)
+	nilResultsOnlyWithErrors(p, r, R9, fns)
+
 	matched := c14MatchedFunctions(p)
 	nByKind := map[string]int{}
 	for _, fn := range fns {
